@@ -78,6 +78,7 @@ type vbroker struct {
 	methodB     bool
 	plan        []*e4Fault
 	noFaults    bool
+	grantMax    int // 0: grant what was requested; n: grant min(requested, n-... see grant())
 
 	sessionExists bool
 	subs          map[string]int
@@ -319,7 +320,16 @@ func (c *vbConn) process(pk refPacket, lose bool) {
 			b.subs[f] = pk.QoSs[i]
 		}
 		b.subPackets = append(b.subPackets, vEvent{Seq: b.log.lastSeq(), Conn: c.id, Kind: "SUBSCRIBE", Pkt: &pk})
-		ack(refPacket{Type: rtSubAck, ID: pk.ID, Codes: append([]int{}, pk.QoSs...)}, vTagOf(pk))
+		codes := append([]int{}, pk.QoSs...)
+		if b.grantMax > 0 {
+			// a broker that grants less than requested: at most QoS grantMax-1
+			for i := range codes {
+				if codes[i] > b.grantMax-1 {
+					codes[i] = b.grantMax - 1
+				}
+			}
+		}
+		ack(refPacket{Type: rtSubAck, ID: pk.ID, Codes: codes}, vTagOf(pk))
 	case rtUnsubscribe:
 		for _, f := range pk.Filters {
 			delete(b.subs, f)
